@@ -9,7 +9,7 @@ RULE = ("histories of kernel events (spawn/exit->zombie/reap/PID reuse by a live
         "calls over PIDs {0,1,2,3,7,2^31-1} (Process() also on -1,-7,5,2^31,2^64), start ticks from 8 values incl. adjacent "
         "ticks, drawn from a weighted grammar with motifs 'process ends, 0-2 queries (is_running/ppid/process_iter/"
         "create_time/boot_time/==/hash), PID reused or not, then a signal or setter on the old object' and 'clock step + "
-        "boot_time() + second object'; every signal method and setter with valid and invalid arguments. Class = most specific "
+        "boot_time() + second object'; guarded calls inside (nested) oneshot() blocks before/after exit+reuse, as_dict(); 30% of objects are psutil.Popen over a stub subprocess.Popen; every signal method and setter with valid and invalid arguments. Class = most specific "
         "feature reached (set-reused-after-gone, set-reused, pid0, set-gone, set-zombie, ...). Non-trivial = some signal/"
         "setter/query on an object was executed; distinct = distinct canonical history.")
 TRUSTED = PC.TRUSTED
